@@ -197,7 +197,7 @@ func (r *Run) Finish() int {
 	}
 	os.MkdirAll(filepath.Join(root, "evidence"), 0o755)
 	data, _ := json.MarshalIndent(ev, "", " ")
-	if err := os.WriteFile(filepath.Join(root, "evidence", r.Prop+".json"), data, 0o644); err != nil {
+	if err := os.WriteFile(filepath.Join(root, "evidence", r.Prop+os.Getenv("VERIF_EVIDENCE_SUFFIX")+".json"), data, 0o644); err != nil {
 		fmt.Fprintf(os.Stderr, "cannot write evidence: %v\n", err)
 		return 2
 	}
